@@ -303,3 +303,39 @@ Definition defaults_typed (e : env) : Prop :=
   forall sid fd dv, In fd (fields_of e sid) -> fdef fd = Some dv -> sc_typed (fty fd) dv.
 Definition defaults_typed_b (e : env) : bool :=
   forallb (forallb (fun fd => match fdef fd with Some dv => sc_typed_b (fty fd) dv | None => true end)) e.
+
+(* ---------- encodings with unknown fields at every struct level ---------- *)
+(* xenc e tag req t d v bs: bs is an encoding of the member v in which every struct value - the member itself, a
+   vector element, a map key or value, at any depth - may carry a group of well-formed unknown fields in front
+   of each of its members and after the last one *)
+Definition trail_ok (fds : schema) (Jl : list (N * wf)) : Prop :=
+  Forall (fun p => fst p < 256 /\ wf_ok (snd p) /\ wdepth (snd p) <= maxd /\ forall fd, In fd fds -> ftag fd < fst p) Jl.
+Inductive xenc (e : env) : N -> bool -> ty -> option val -> val -> list N -> Prop :=
+| XE_scalar tag req t d v : scalar_ty t = true -> xenc e tag req t d v (enc_var e tag req t d v)
+| XE_bytes tag req d s : xenc e tag req (TVec TI8) d (VBytes s) (enc_var e tag req (TVec TI8) d (VBytes s))
+| XE_vec tag req d x xs body : xelems e x xs body ->
+    xenc e tag req (TVec x) d (VList xs)
+      (if negb req && (match xs with [] => true | _ => false end) then []
+       else head tLIST tag ++ w_int32 (Z.of_nat (length xs)) 0 ++ body)
+| XE_arr tag req d n x xs body : xelems e x xs body ->
+    xenc e tag req (TArr n x) d (VList xs)
+      (if negb req && (match xs with [] => true | _ => false end) then []
+       else head tLIST tag ++ w_int32 (Z.of_nat (length xs)) 0 ++ body)
+| XE_map tag req d kt vt kvs body : xentries e kt vt kvs body ->
+    xenc e tag req (TMap kt vt) d (VMap kvs)
+      (if negb req && (match kvs with [] => true | _ => false end) then []
+       else head tMAP tag ++ w_int32 (Z.of_nat (length kvs)) 0 ++ body)
+| XE_struct tag req d sid vs Js Jl body : xfields e (fields_of e sid) vs Js body ->
+    junks_ok None (fields_of e sid) Js -> trail_ok (fields_of e sid) Jl ->
+    xenc e tag req (TStruct sid) d (VStruct vs) (head tSB tag ++ body ++ ser_fields Jl ++ head tSE 0)
+with xelems (e : env) : ty -> list val -> list N -> Prop :=
+| XL_nil x : xelems e x [] []
+| XL_cons x y r b bs : xenc e 0 true x None y b -> xelems e x r bs -> xelems e x (y :: r) (b ++ bs)
+with xentries (e : env) : ty -> ty -> list (val * val) -> list N -> Prop :=
+| XM_nil kt vt : xentries e kt vt [] []
+| XM_cons kt vt k y r bk bv bs : xenc e 0 true kt None k bk -> xenc e 1 true vt None y bv -> xentries e kt vt r bs ->
+    xentries e kt vt ((k, y) :: r) (bk ++ bv ++ bs)
+with xfields (e : env) : schema -> list val -> list (list (N * wf)) -> list N -> Prop :=
+| XF_nil : xfields e [] [] [] []
+| XF_cons fd fds x vs J Js b bs : xenc e (ftag fd) (freq fd) (fty fd) (fdef fd) x b -> xfields e fds vs Js bs ->
+    xfields e (fd :: fds) (x :: vs) (J :: Js) (ser_fields J ++ b ++ bs).
